@@ -92,6 +92,9 @@ func c07R1(c *Ctx) {
 		}
 		reason, ok := c07PanicTable[tk]
 		if !ok {
+			reason, ok = c.tabledS(c07PanicTable, s.fn, "|"+s.msg)
+		}
+		if !ok {
 			c.bad(rule, key, c.instrPos(s.in), fmt.Sprintf("panic(%q) is reachable in the run path and is not a tabled invariant: a run-time fault must end the run with an error (report + cancel), not kill the process", s.msg))
 			continue
 		}
@@ -367,6 +370,9 @@ func c07R2(c *Ctx) {
 				key = fmt.Sprintf("%s#%d", key, cnt[key])
 			}
 			reason, ok := c07AssertTable[tk]
+			if !ok {
+				reason, ok = c.tabledS(c07AssertTable, fn, "|"+shortType(ta.AssertedType)+"|"+origin)
+			}
 			if !ok {
 				// a CHECK line is recomputed at the site, so it also covers the same assertion moved into another function
 				suffix := "|" + shortType(ta.AssertedType) + "|" + origin
@@ -651,16 +657,24 @@ func (c *Ctx) checkStageDataIsMap(ta *ssa.TypeAssert) (bool, string) {
 	// (3) the assertion is dominated by the err == nil edge of DataSchema.Unserialize (an object schema accepts only maps)
 	dom := false
 	schemaF := c.field(pkgWorkflow, "DAGItem", "DataSchema")
-	eachInstr(ta.Parent(), func(r instrRef) {
-		call, ok := r.I.(*ssa.Call)
-		if !ok || !dominates(call, ta) {
-			return
+	// (the validation may be in the function that calls the helper holding the assertion)
+	for cur, i := ta.Parent(), 0; cur != nil && i < 6; i++ {
+		eachInstr(cur, func(r instrRef) {
+			call, ok := r.I.(*ssa.Call)
+			if !ok || !dominates(call, ta) {
+				return
+			}
+			cc := call.Common()
+			if cc.IsInvoke() && cc.Method.Name() == "Unserialize" && loadedField(cc.Value) == schemaF && len(cc.Args) == 1 && sameVal(cc.Args[0], ta.X) {
+				dom = true
+			}
+		})
+		site := ownerSite[cur]
+		if site == nil {
+			break
 		}
-		cc := call.Common()
-		if cc.IsInvoke() && cc.Method.Name() == "Unserialize" && loadedField(cc.Value) == schemaF && len(cc.Args) == 1 && cc.Args[0] == ta.X {
-			dom = true
-		}
-	})
+		cur = site.Parent()
+	}
 	// every DataSchema written anywhere is an object schema (accepts only maps)
 	objOnly := true
 	nStores := 0
@@ -1101,7 +1115,7 @@ func (c *Ctx) closedSetBefore(fn, root *ssa.Function, depth int) bool {
 				return
 			}
 			f := loadedField(call.Call.Args[0])
-			if f == nil || f.Name() != "closed" {
+			if f == nil || fieldName(f) != "closed" {
 				return
 			}
 			if b, ok := constBool(call.Call.Args[1]); ok && b && dominates(call, cs.Instr) {
@@ -1148,6 +1162,11 @@ func c07R7(c *Ctx) {
 			return false, "too deep"
 		}
 		switch x := v.(type) {
+		case *ssa.Parameter:
+			if arg, ok := paramBinding[x]; ok {
+				return nonNil(arg, d+1)
+			}
+			return false, "parameter " + x.Name() + " of a function with several callers"
 		case *ssa.MakeMap:
 			return true, ""
 		case *ssa.Phi:
